@@ -4,7 +4,7 @@
 From Coq Require Import List NArith Bool Lia.
 From Verif Require Import Common.Util Bft.Tree Bft.Model Bft.Quorum Bft.ProofsTally Bft.ProofsChain Bft.ProofsSearch
   Bft.ProofsNode Bft.Safety Bft.ProofsWitness Bft.ProofsCommit Bft.ProofsOrder Bft.ProofsOrder2 Bft.ProofsOrder3 Bft.ProofsOrder4
-  Bft.ProofsLive Bft.ProofsVote Bft.ProofsJustified Bft.ProofsFork.
+  Bft.ProofsLive Bft.ProofsVote Bft.ProofsJustified Bft.ProofsFork Bft.ProofsSafety Bft.ProofsRun Bft.ProofsGap Bft.ProofsWitness2.
 From Verif Require Compose.SyncOrder.
 Import ListNotations.
 Open Scope N_scope.
@@ -131,6 +131,28 @@ Proof.
     [exact (inv_wf c _ I1) | exact (inv_wf c _ I2) | exact (inv_qs c _ I1) | exact (inv_qs c _ I2)].
 Qed.
 
+(* the node invariants and the cache invariant along every history of imports, own proposals (on a stored parent), restarts and
+   queries whose blocks carry their parent's number plus one - so the premises `inv` / `node_jc` of justified_order_independent
+   are established, not assumed, for nodes reached from genesis *)
+Theorem inv_along_histories_with_queries c g master h : 0 < c_L c -> b_num g = 0 ->
+  (forall nd b, inv c nd -> In b (nev_blocks h) -> valid_child (n_repo nd) b) ->
+  inv c (run_nev c (init_node g master) h).
+Proof. intros HL Hg Hv. apply (run_nev_inv c HL h); [apply init_inv; assumption | exact Hv]. Qed.
+
+Theorem justified_order_independent_along_histories c g m1 m2 h1 h2 : 0 < c_L c -> b_num g = 0 ->
+  (forall nd b, inv c nd -> In b (nev_blocks h1) \/ In b (nev_blocks h2) -> valid_child (n_repo nd) b) ->
+  let n1 := run_nev c (init_node g m1) h1 in
+  let n2 := run_nev c (init_node g m2) h2 in
+  (forall x, In x (n_repo n1) <-> In x (n_repo n2)) -> e_fin (n_eng n1) = e_fin (n_eng n2) ->
+  snd (justified c (n_repo n1) (n_eng n1) (best_blk n1)) = snd (justified c (n_repo n2) (n_eng n2) (best_blk n2)).
+Proof.
+  intros HL Hg Hv n1 n2 Hset Hfin. apply (justified_order_independent c n1 n2 HL); try assumption.
+  - apply inv_along_histories_with_queries; try assumption. intros nd b Hi Hb. apply Hv; [exact Hi | left; exact Hb].
+  - apply inv_along_histories_with_queries; try assumption. intros nd b Hi Hb. apply Hv; [exact Hi | right; exact Hb].
+  - apply run_nev_jc. exact Logic.I.
+  - apply run_nev_jc. exact Logic.I.
+Qed.
+
 Theorem node_jc_along_histories c g master h : node_jc c (run_nev c (init_node g master) h).
 Proof. apply run_nev_jc. exact Logic.I. Qed.
 
@@ -225,6 +247,19 @@ Proof.
   apply existsb_exists in H. destruct H as [y [Hy E]]. rewrite (Verif.Bft.ProofsTree2.blk_eqb_eq gen y E). exact Hy.
 Qed.
 
+(* tree_consistent is STRICTLY stronger than C03's safety conclusion: the tree of C03's valid one-Byzantine-of-four run sib_run,
+   in which no two finalized checkpoints conflict (both committed epochs finalize genesis), is not consistent - its two
+   finalizing blocks 7X and 7Y lie on different branches.  import_set_order_independent says nothing about such trees. *)
+Theorem tree_consistent_stronger_than_safety : ~ tree_consistent cfg4 (seen_after [gen] sib_run).
+Proof.
+  intros H. destruct cfg4_side as [N1 [_ [D _]]].
+  destruct (world_prefix cfg4 ltac:(reflexivity) gen eq_refl [4] [1;2;3] D N1 sib_run [] ltac:(rewrite app_nil_r; exact sib_valid)
+              ltac:(rewrite app_nil_r; exact sib_root)) as [Hw _].
+  pose proof (wg_wf cfg4 gen [4] [1;2;3] _ _ Hw) as Hwf.
+  destruct sib_gap0_instance as [F1 [F2 _]].
+  destruct (H _ Hwf ltac:(intros x Hx; exact Hx) sx7 sy7 F1 F2) as [E|E]; vm_compute in E; discriminate E.
+Qed.
+
 Example search_example : (* qualities 1,2,2,3 per epoch, committed epoch has quality 3: the search finds index 1 *)
   bsearch 5 (fun i => Ok (2 <=? nth (N.to_nat i) [1;2;2;3] 0)) 0 4 = Ok 1.
 Proof. vm_compute. reflexivity. Qed.
@@ -275,6 +310,14 @@ Proof.
   split; [exact (proj2 (proj2 (proj2 (proj2 Compose.SyncOrder.ex_wins_by_quality)))) | exact Compose.SyncOrder.select_is_sbetter_example].
 Qed.
 
+(* how the oracle's observed runs relate to the plain transition system of the theorems: `step` (what `run` / `run_f 0` iterate) is
+   the plain step followed by the two observation calls Justified() and ShouldVote(best) on the node that moved; these leave
+   repository, best block, finalized, quality records and master untouched (they may fill the one-entry cache and create the
+   votes record, which is why the observed and the plain run are not literally equal). *)
+Theorem observed_step_is_plain_step_on_core_state guard c w ev :
+  map core (fst (Verif.Bft.Model.step guard c w ev)) = map core (step_plain guard c w ev).
+Proof. exact (step_is_plain_step_then_observation guard c w ev). Qed.
+
 (* The FINALITY fork height.  The oracle runs `run_f F` (Bft/Model.v, second half): the engine and the node with
    forkConfig.FINALITY = F as the code uses it (zero state below F, no walk below F, first round counted from F / L, the
    checkpoint search starts at getCheckPoint(F), the node consults Select / CommitBlock / ShouldVote only at or after F);
@@ -295,6 +338,9 @@ Print Assumptions chain_is_function_of_set.
 Print Assumptions justified_independent_of_cache_history.
 Print Assumptions justified_order_independent.
 Print Assumptions node_jc_along_histories.
+Print Assumptions inv_along_histories_with_queries.
+Print Assumptions justified_order_independent_along_histories.
+Print Assumptions tree_consistent_stronger_than_safety.
 Print Assumptions justified_stale_cache_before_repair.
 Print Assumptions received_order_matters.
 Print Assumptions tally_is_declarative_spec.
@@ -312,3 +358,4 @@ Print Assumptions quality_stable_under_growth.
 Print Assumptions best_is_max_gives_sync_best_max.
 Print Assumptions best_is_max_gives_sync_best_max_example.
 Print Assumptions oracle_run_at_finality_0_is_the_verified_model.
+Print Assumptions observed_step_is_plain_step_on_core_state.
